@@ -183,6 +183,68 @@ def run(ctx):
         if first:
             analyse(ctx, slow, first, False, "first invocation (with a refused second one)")
         kinds["second-" + ("resumed" if resumed else "fresh")] = kinds.get("second-" + ("resumed" if resumed else "fresh"), 0) + 1
+    # ---- ended by robsd-kill (the immutable flag emulated by the chflags/touch/rm shims): the step that runs is
+    # terminated and recorded, hook and report follow, the lock is gone afterwards and
+    # the next invocation is accepted
+    import threading
+    for t in range(ctx.n(2, 12)):
+        par = (t % 2 == 1)
+        detach = (t % 4 >= 2)
+        root = os.path.join(ctx.scratch, "c11kill%d" % t)
+        shutil.rmtree(root, ignore_errors=True)
+        kcfg = dict(steps=[("a", False, 0, 0), ("b", par, 8000, 0), ("c", False, 0, 0)], skip=[], cmdline_skip=[], ncpu=2)
+        box = {}
+        th = threading.Thread(target=lambda: box.update(res=cr.run(kcfg, detach=detach, root=root, extra_env=dict(VERIF_UCHG="1"), timeout=60)))
+        th.start()
+        t0 = time.time()
+        inflight = False
+        while time.time() - t0 < 15 and not inflight:
+            time.sleep(0.05)
+            for dn in [x for x in (os.listdir(root) if os.path.isdir(root) else []) if x[:2] == "20"]:
+                sp = os.path.join(root, dn, "step.csv")
+                if os.path.exists(sp) and any(l.split(",")[1:3] == ["b", "-1"] for l in open(sp).read().split("\n")[1:] if l):
+                    inflight = True
+        time.sleep(0.4)
+        krc, kout, kerr = cr.sh.run_script("robsd-kill", ["-m", "canvas"], extra=dict(ROBSDCONF=os.path.join(root, "canvas.conf"), VERIF_UCHG="1"), timeout=40)
+        th.join()
+        res = box.get("res")
+        what = "canvas%s ended by robsd-kill while its %s step ran" % ("" if detach else " -d", "parallel" if par else "second")
+        kinds["robsd-kill" + ("-parallel" if par else "") + ("-detached" if detach else "")] = 1 + kinds.get("robsd-kill" + ("-parallel" if par else "") + ("-detached" if detach else ""), 0)
+        if not inflight or res is None:
+            continue        # the run did not get as far as step b in 15 s: nothing to observe
+        info = dict(kill_rc=krc, kill_stderr=kerr.decode(errors="replace")[-300:], rc=res["rc"], rows=res["rows"], hooks=res["hooks"], stderr=res["stderr"][-400:],
+                    lock_left=res["lock_left"], flag_left=os.path.exists(os.path.join(root, ".running.verif-uchg")),
+                    scenario="steps a, b (sleeps 8 s%s), c; robsd-kill -m canvas once b is in flight; chflags/touch/rm shims emulate the immutable flag" % (", parallel" if par else ""))
+        rows = {r["name"]: r for r in res["rows"]}
+        if krc != 0:
+            ctx.violation("%s: robsd-kill itself failed (%s)" % (what, krc), info)
+        if res["lock_left"] or info["flag_left"]:
+            ctx.violation("%s: the lock file is still there afterwards%s" % (what, " (and still immutable)" if info["flag_left"] else ""), info)
+        if "b" not in rows or rows["b"]["exit"] in (0, -1):
+            ctx.violation("%s: the terminated step is recorded as %s" % (what, rows.get("b", {}).get("exit", "nothing")), info)
+        # (whether a later step still starts is robsd-kill's business, not this property's: with a parallel step
+        # terminated, the synchronous step behind the barrier does start and robsd-kill's loop takes care of it)
+        if not par and ("c" in rows or "end" in rows):
+            ctx.violation("%s: the run went on after its synchronous step was terminated (%s recorded)" % (what, "c" if "c" in rows else "end"), info)
+        if not detach and res["rc"] == 0:
+            ctx.violation("%s: the invocation exited 0" % what, info)
+        if res["report"] is None:
+            ctx.violation("%s: no report although a step failed" % what, info)
+        hk = [(h[0], h[1]) for h in res["hooks"] if len(h) >= 2]
+        if "b" in rows and hk.count(("b", str(rows["b"]["exit"]))) != 1:
+            ctx.violation("%s: the hook did not run exactly once for the terminated step with its exit %s: %s" % (what, rows["b"]["exit"], hk), info)
+        nmail = res["mail"].count("=== sendmail")
+        if nmail != (1 if detach else 0):
+            ctx.violation("%s: %d mails" % (what, nmail), info)
+        # the next invocation on that root is accepted
+        nxt = cr.run(dict(steps=[("z", False, 0, 0)], skip=[], cmdline_skip=[], ncpu=1), root=root, keep_root=True, extra_env=dict(VERIF_UCHG="1"))
+        if nxt["rc"] != 0 or not any(r["name"] == "end" for r in nxt["rows"]):
+            ctx.violation("%s: the next invocation is not accepted (exit %s)" % (what, nxt["rc"]), dict(info, next_stderr=nxt["stderr"][-300:], next_stdout=nxt["stdout"][-300:]))
+        bdir = res["builddir"] or ""
+        reqs.append("lock killed %s %s %d %d" % (hexb(bdir.encode()), hexb(bdir.encode()), rows.get("b", {}).get("exit", 1) or 1, 1 if detach else 0))
+        wants.append("lock=%s immutable=%d reports=%d mails=%d alive=0 next=%d" % ("!" if not res["lock_left"] else "left", 1 if info["flag_left"] else 0,
+                                                                                   0 if res["report"] is None else 1, nmail, 1 if nxt["rc"] == 0 else 0))
+        infos.append(dict(info, what=what))
     ans = ctx.model(reqs) if reqs else []
     for q, a, w, info in zip(reqs, ans, wants, infos):
         f = a.strip().split(" ")
@@ -195,7 +257,7 @@ def run(ctx):
     ctx.cov.update(dict(
         evaluations=n + sum(v for k, v in kinds.items() if k.startswith("second") or k == "resumed"), distinct_nontrivial=len(distinct),
         rule="the C04 canvas generator, foreground (-d) and background (mail captured), resumed after a failure, and a second fresh/resumed invocation "
-             "started while a slow first one holds the lock; for each run: records (one per executed step, real exit, duration >= 0, own log holding the output), skip "
+             "started while a slow first one holds the lock; invocations ended by robsd-kill while a sequential / parallel step runs (immutable flag emulated by shims; compared with Lock.killed); for each run: records (one per executed step, real exit, duration >= 0, own log holding the output), skip "
              "records, no in-flight record, hook calls (with the builddir they saw), lock content sampled by the probes and gone afterwards, report iff failed or end, "
              "mail once iff background; non-trivial = distinct (configuration, mode)",
         samples=[dict(request=q[:200], impl=w) for q, w in list(zip(reqs, wants))[:3]],
